@@ -1908,6 +1908,8 @@ class UserSpaceImpl(*_user_space_impl_base):
                 selfdict[name] = selfdict.pop(name)
 
     def on_delete(self):
+        # Delete ItemSpaces holding dynamic copies of the space
+        self.clear_subs_rootitems()
         self.model.refmgr.del_space_refs(self)
         # Values other spaces computed by reading the references by attribute
         for ref in self.own_refs.values():
